@@ -55,7 +55,7 @@ def ds_case(draw, layouts=("station", "grid"), one_site=False, whole_dirs=False,
         specs.append(s)
     return dict(f=f, dg=dg, layout=layout, nt=nt, npos=npos, nlat=nlat, nlon=nlon, specs=specs, winds=draw(st.booleans()), gz=draw(st.booleans()), ntime=draw(st.sampled_from([None, None, 1, 2, 3])),
                 as_site=draw(st.booleans()), packed=draw(st.booleans()), lon0=draw(st.sampled_from([150.25, -70.5, 359.0, 0.125])), minutes=draw(st.sampled_from([60, 180, 30])),
-                perm=draw(st.one_of(st.none(), st.none(), st.permutations(list(range(5 if layout == "grid" else 4))))))
+                perm=draw(st.one_of(st.none(), st.none(), st.permutations(list(range(5 if layout == "grid" else 4))))), lat_desc=draw(st.booleans()), lon_desc=draw(st.booleans()))
 
 
 def build(case, allow_nan=True):
@@ -79,6 +79,11 @@ def build(case, allow_nan=True):
         nlat, nlon = case["nlat"], case["nlon"]
         lats = np.round(-35.000003 + 0.750001 * np.arange(nlat), 6)
         lons = np.round(case["lon0"] + 0.000007 + 0.500001 * np.arange(nlon), 6)
+        # grids are also stored north-to-south and / or east-to-west
+        if case.get("lat_desc"):
+            lats = lats[::-1].copy()
+        if case.get("lon_desc"):
+            lons = lons[::-1].copy()
         da = xr.DataArray(E.reshape(nt, nlat, nlon, len(f), len(d)), coords=dict(time=times, lat=lats, lon=lons, freq=f, dir=d), dims=("time", "lat", "lon", "freq", "dir"), name="efth")
         ds = da.to_dataset()
         lead = ["time", "lat", "lon"]
@@ -203,7 +208,7 @@ def check_swan(case, ctx):
     finally:
         shutil.rmtree(w, ignore_errors=True)
     ctx.nt(_nt(case, ds))
-    ctx.label("layout=" + case["layout"], "gz=%s" % case["gz"], "ntime=%r" % case["ntime"], "as_site=%s" % case["as_site"], "dorder=" + case["dg"]["order"], *["kind=" + ("nan" if s.get("nan") else s["kind"]) for s in case["specs"][:4]])
+    ctx.label("layout=" + case["layout"], "latlon-order=%s/%s" % ("desc" if case.get("lat_desc") else "asc", "desc" if case.get("lon_desc") else "asc") if case["layout"] == "grid" else "stations", "gz=%s" % case["gz"], "ntime=%r" % case["ntime"], "as_site=%s" % case["as_site"], "dorder=" + case["dg"]["order"], *["kind=" + ("nan" if s.get("nan") else s["kind"]) for s in case["specs"][:4]])
     ctx.show(dict(format="swan", layout=case["layout"], times=case["nt"], positions=case["npos"], grid=[case["nlat"], case["nlon"]], f=case["f"], dorder=case["dg"]["order"], gz=case["gz"], ntime=case["ntime"]))
 
 
